@@ -187,6 +187,16 @@ async fn crash(i: usize) -> String {
     panic!("handler {i} panics (scripted)")
 }
 
+/// a session that is upgraded to a WebSocket: it is in flight until the WebSocket handler ends
+async fn wsup(i: usize, ctx: ohkami::ws::WebSocketContext<'_>) -> ohkami::ws::WebSocket {
+    ctx.upgrade(move |_conn| async move {
+        ev("started", i as i64);
+        let n = RELEASE.lock().unwrap()[i].clone();
+        n.notified().await;
+        ev("ended", i as i64);
+    })
+}
+
 fn e2e(scn: &Value) -> Value {
     use ohkami::prelude::*;
     use tokio::io::{AsyncReadExt, AsyncWriteExt};
@@ -194,10 +204,11 @@ fn e2e(scn: &Value) -> Value {
     for _ in 0..8 { RELEASE.lock().unwrap().push(Arc::new(tokio::sync::Notify::new())) }
     let steps: Vec<String> = crate::util::arr(&scn["steps"]).iter().map(|s| crate::util::s(&s[0]).to_string()).collect();
     let crashes: Vec<i64> = crate::util::arr(&scn["crash"]).iter().map(crate::util::i).collect();
+    let upgraded: Vec<i64> = scn["ws"].as_array().map(|a| a.iter().map(crate::util::i).collect()).unwrap_or_default();
     let rt = tokio::runtime::Builder::new_multi_thread().worker_threads(2).enable_all().build().unwrap();
     let out = rt.block_on(async move {
         let port = { let l = std::net::TcpListener::bind("127.0.0.1:0").unwrap(); l.local_addr().unwrap().port() };
-        let o = Ohkami::new(("/s/:i".GET(slow), "/x/:i".GET(crash)));
+        let o = Ohkami::new(("/s/:i".GET(slow), "/x/:i".GET(crash), "/w/:i".GET(wsup)));
         let script = tokio::spawn(async move {
             // wait until it listens
             let mut up = false;
@@ -214,10 +225,13 @@ fn e2e(scn: &Value) -> Value {
                         let i = next; next += 1;
                         ev("arrive", i as i64);
                         let crashing = crashes.contains(&(i as i64));
+                        let ws = !crashing && upgraded.contains(&(i as i64));
                         let h = tokio::spawn(async move {
                             let mut buf = vec![];
                             if let Ok(mut c) = tokio::net::TcpStream::connect(("127.0.0.1", port)).await {
-                                let _ = c.write_all(format!("GET /{}/{i} HTTP/1.1\r\nConnection: close\r\n\r\n", if crashing { "x" } else { "s" }).as_bytes()).await;
+                                let req = if ws { format!("GET /w/{i} HTTP/1.1\r\nHost: x\r\nConnection: Upgrade\r\nUpgrade: websocket\r\nSec-WebSocket-Version: 13\r\nSec-WebSocket-Key: dGhlIHNhbXBsZSBub25jZQ==\r\n\r\n") }
+                                          else { format!("GET /{}/{i} HTTP/1.1\r\nConnection: close\r\n\r\n", if crashing { "x" } else { "s" }) };
+                                let _ = c.write_all(req.as_bytes()).await;
                                 let _ = c.read_to_end(&mut buf).await;
                             }
                             buf
@@ -237,6 +251,18 @@ fn e2e(scn: &Value) -> Value {
                         signalled = true;
                         // let the accept loop observe it
                         tokio::time::sleep(Duration::from_millis(30)).await;
+                        // "stops accepting connections": with sessions still in flight (howl cannot have returned) the port must refuse a new
+                        // client -- probed until it does, for at most 4 s (the sessions stay in flight meanwhile: only the script releases them)
+                        if !inflight.is_empty() {
+                            let t0 = std::time::Instant::now(); let mut closed = false;
+                            while t0.elapsed() < Duration::from_millis(4000) {
+                                match tokio::time::timeout(Duration::from_millis(500), tokio::net::TcpStream::connect(("127.0.0.1", port))).await {
+                                    Ok(Ok(c)) => { drop(c); tokio::time::sleep(Duration::from_millis(20)).await }
+                                    _ => { closed = true; break }
+                                }
+                            }
+                            ev("port", closed as i64);
+                        }
                     }
                     "D" => {
                         if let Some(i) = inflight.pop_front() {
